@@ -11,6 +11,8 @@ correspondence harness (decoded raw transactions), not proved.
 -/
 import DosModel.Proofs.ReqLoop
 import DosModel.Proofs.ReqLoopMarshal
+import DosModel.Model.Codec
+import DosModel.Gen.ReqLoopFacts
 
 namespace Dos.Props.C19
 open Dos Dos.ReqLoop
@@ -287,5 +289,145 @@ theorem marshal_roundtrip_request (v t : Nat) (hv : v < 2 ^ 256) (ht : t < 256) 
 
 example : requestId (natBE 32 (2 ^ 256 - 1)) = 2 ^ 256 - 1 :=
   (marshal_roundtrip_request (2 ^ 256 - 1) 2 (by decide) (by decide)).1
+
+/-! ### the same functions in the codec model of C11 (`Model/Codec.lean`)
+
+The marshalling theorems above are about `ReqLoop.toBigInt / decodePubKey / marshalG2`; C11's byte-level
+codec model has its own `Codec.sigToBigInt`, `Codec.decodePubKey`, `Codec.marshalG2`.  They are the same
+functions; stated here so that a change to either side is noticed. -/
+
+/-- the marshalled form used above is the codec model's G2 encoding of the affine point -/
+theorem marshalG2_is_codec (xi xr yi yr : Nat) :
+    marshalG2 xi xr yi yr = Codec.marshalG2 (.aff ⟨xi, xr⟩ ⟨yi, yr⟩) := rfl
+
+/-- `decodePubKey` agrees with the codec model on every byte string (a short one is a slice panic in both) -/
+theorem decodePubKey_is_codec (mar : Bytes) :
+    Codec.decodePubKey mar =
+      (match decodePubKey mar with
+       | some v => .ok v
+       | none => .panic "slice bounds out of range") := by
+  by_cases h : mar.length < 129
+  · have h4 : ¬ (97 ≤ 129 ∧ 129 ≤ mar.length) := by omega
+    simp only [Codec.decodePubKey, Codec.sliceRange, decodePubKey, h, h4, if_true, if_false]
+    split <;> simp_all
+  · have h1 : (1 ≤ 33 ∧ 33 ≤ mar.length) := by omega
+    have h2 : (33 ≤ 65 ∧ 65 ≤ mar.length) := by omega
+    have h3 : (65 ≤ 97 ∧ 97 ≤ mar.length) := by omega
+    have h4 : (97 ≤ 129 ∧ 129 ≤ mar.length) := by omega
+    simp [Codec.decodePubKey, Codec.sliceRange, decodePubKey, h, h1, h2, h3, h4, List.range, List.range.loop]
+
+/-- `toBigInt` agrees with the codec model on every signature of at least 32 bytes.  (For a shorter one the
+code now returns (0, 0) — /repo 6bcc55e — which `toBigInt` models; `Codec.sigToBigInt` still has the slice panic.) -/
+theorem toBigInt_is_codec (sig : Bytes) (h : 32 ≤ sig.length) :
+    Codec.sigToBigInt sig = .ok (toBigInt sig) := by
+  have : ¬ sig.length < 32 := by omega
+  simp [Codec.sigToBigInt, toBigInt, h, this]
+
+example : Codec.decodePubKey (marshalG2 0 1 2 3) = .ok [0, 1, 2, 3] := by
+  rw [decodePubKey_is_codec, marshal_roundtrip_pubkey 0 1 2 3 (by decide) (by decide) (by decide) (by decide)]
+
+/-! ### regenerated shape of `handleReq` and of the request closures (`Gen/ReqLoopFacts.lean`, from onchain/eth_set.go) -/
+
+open Dos.Gen.ReqLoopFacts
+
+/-- the error text by which the code recognises an outcome -/
+def errText : Outcome → Option String
+  | .revert => some "transaction failed"
+  | .insufficient => some "insufficient funds for gas * price + value"
+  | .nonceErr => some "failed to retrieve account nonce"
+  | .closedConn => some "use of closed network connection"
+  | _ => none
+
+def allOutcomes : List Outcome :=
+  [.accept, .closedConn, .nonceErr, .revert, .insufficient, .otherErr, .ctxDone, .opDone]
+
+def lookupStr (l : List (String × String)) (k : String) : String :=
+  match l.find? (fun p => p.1 == k) with
+  | some p => p.2
+  | none => "(missing)"
+
+/-- what the code AS REGENERATED does when the loop reaches an endpoint with outcome `o`: the statement that
+ends the iteration, and whether the endpoint's cancel function is called -/
+def codeBranch (o : Outcome) : String × Bool :=
+  match o with
+  | .opDone => (lookupStr selectCases "<-req.opCtx.Done()", false)
+  | .ctxDone => (lookupStr selectCases "<-ctx.Done()", false)
+  | .accept => (afterSuccess, false)
+  | o =>
+    match errText o with
+    | none => (afterErrorBlock, false)
+    | some t =>
+      match errorMatches.find? (fun m => m.1.contains t) with
+      | none => (afterErrorBlock, false)
+      | some m =>
+        (if m.2.2 == "(falls through)" then afterErrorBlock else m.2.2,
+         m.2.1 == "var oError *OnchainError; if errors.As(err, &oError) { e.cancels[oError.Idx]() }")
+
+/-- what `Model/ReqLoop.lean` does for the same outcome -/
+def modelBranch (o : Outcome) : String × Bool :=
+  (if o = .opDone then "return" else if stops o then "break L" else "continue", cancels o)
+
+/-- **regenerated: the branches of the loop are the model's.** For every outcome the statement that ends the
+iteration in the source (`return` / `continue` / `break L` — a bare `break` would only leave the `select`)
+and the cancel call are what the model assumes; `L` labels the range loop over `e.ctxes`, which assigns
+(`=`) the function-level `idx, ctx`; `req.f` is called once per iteration with `tx, err =`; the select has
+exactly the three clauses; the F8 guard and the reply literal follow the loop. -/
+theorem handleReq_branches_match_model :
+    allOutcomes.all (fun o => codeBranch o == modelBranch o) = true ∧
+    loopLabel = "L" ∧ rangeHeader = "for idx, ctx = range e.ctxes" ∧
+    selectCases.map (·.1) = ["<-req.opCtx.Done()", "<-ctx.Done()", "default"] ∧
+    lookupStr selectCases "default" = "break L" ∧
+    callAssign = "tx, err = req.f(ctx)" ∧
+    errorMatches.map (·.1) = [["transaction failed", "insufficient funds for gas * price + value"],
+                              ["failed to retrieve account nonce", "use of closed network connection"]] ∧
+    guardCond = "tx == nil && err == nil" ∧ guardBody = "err = errors.New(…)" ∧
+    replyLiteral = "&response{idx, tx, err}" := by
+  decide
+
+set_option maxRecDepth 8000 in
+/-- **regenerated: the whole control skeleton of `handleReq`** (any added, removed or moved branch is noticed). -/
+theorem handleReq_skeleton :
+    skeleton = [
+      "0 var tx *types.Transaction", "0 var err error", "0 var idx int", "0 var ctx context.Context",
+      "0 label L", "0 for idx, ctx = range e.ctxes", "1 select",
+      "2 case <-req.opCtx.Done()", "3 return",
+      "2 case <-ctx.Done()", "3 continue",
+      "2 default", "3 tx, err = req.f(ctx)", "3 if err != nil",
+      "4 if strings.Contains(err.Error(), \"transaction failed\") || strings.Contains(err.Error(), \"insufficient funds for gas * price + value\")",
+      "5 break L",
+      "4 if strings.Contains(err.Error(), \"failed to retrieve account nonce\") || strings.Contains(err.Error(), \"use of closed network connection\")",
+      "5 var oError *OnchainError", "5 if errors.As(err, &oError)", "6 e.cancels[oError.Idx]()",
+      "4 continue", "3 break L",
+      "0 if tx == nil && err == nil", "1 err = errors.New(\"no live endpoint to send the request to\")",
+      "0 resp := &response{idx, tx, err}", "0 go func"] := by
+  decide
+
+/-- **regenerated: every request closure assigns its named results.** Each `f := func(ctx) (tx
+*types.Transaction, err error)` of eth_set.go assigns `tx` / `err` with `=` only (a `:=` would shadow them and
+the closure would return `nil, nil`: success reported, nothing sent) and ends with the bare `return`. -/
+theorem closures_assign_named_results :
+    closures.all (fun c => c.results == "(tx *types.Transaction, err error)" && c.last == "return" &&
+      c.assigns == [("err", "="), ("tx, err", "="), ("err", "=")]) = true ∧
+    closures.map (·.method) = ["SetGroupSize", "UpdateRandomness", "DataReturn", "RegisterGroupPubKey",
+      "RegisterNewNode", "UnRegisterNode", "SignalUnregister", "StartCommitReveal", "Commit", "Reveal"] := by
+  decide
+
+/-- **regenerated: argument preparation and binding call of the six calls of the property** — signature as
+`[2]{x, y}` of `ToBigInt`, request id `SetBytes(RequestId)`, traffic type `uint8(Index)`, group key
+`idPubkey[1:]` after the group id, in the argument order of the binding methods. -/
+theorem closures_marshalling :
+    (closures.filter (fun c => ["UpdateRandomness", "DataReturn", "RegisterGroupPubKey", "RegisterNewNode", "Commit", "Reveal"].contains c.method)).map
+        (fun c => (c.method, c.prep, c.call)) =
+      [("UpdateRandomness", ["proxies := e.proxies", "x, y := sign.ToBigInt()", "sig := [2]*big.Int{x, y}"],
+          "proxies[idx].UpdateRandomness(sig)"),
+       ("DataReturn", ["proxies := e.proxies", "requestId := new(big.Int).SetBytes(sign.RequestId)",
+          "trafficType := uint8(sign.Index)", "result := sign.Content", "x, y := sign.ToBigInt()", "sig := [2]*big.Int{x, y}"],
+          "proxies[idx].TriggerCallback(requestId, trafficType, result, sig)"),
+       ("RegisterGroupPubKey", ["proxies := e.proxies", "groupId := idPubkey[0]", "var pubKey [4]*big.Int", "copy(pubKey[:], idPubkey[1:])"],
+          "proxies[idx].RegisterGroupPubKey(groupId, pubKey)"),
+       ("RegisterNewNode", ["proxies := e.proxies"], "proxies[idx].RegisterNewNode()"),
+       ("Commit", ["crs := e.crs"], "crs[idx].Commit(cid, commitment)"),
+       ("Reveal", ["crs := e.crs"], "crs[idx].Reveal(cid, secret)")] := by
+  decide
 
 end Dos.Props.C19
